@@ -122,17 +122,19 @@ static void ec_alg_type(EVP_PKEY *pkey, char crv[32], char alg[32])
 
 /* Retrieves and b64url-encodes a single OSSL BIGNUM param and adds it to
  * the JSON object as a string. */
-static void get_one_bn(EVP_PKEY *pkey, const char *ossl_param,
-		       json_t *jwk, const char *name)
+static void get_one_bn_pad(EVP_PKEY *pkey, const char *ossl_param,
+			   json_t *jwk, const char *name, int min_len)
 {
 	/* Get param */
 	BIGNUM *bn = NULL;
 	EVP_PKEY_get_bn_param(pkey, ossl_param, &bn);
 
-	/* Extract data */
+	/* Extract data, left-padded with zeroes to at least min_len octets */
 	int len = BN_num_bytes(bn);
+	if (len < min_len)
+		len = min_len;
 	unsigned char *bin = OPENSSL_malloc(len);
-	BN_bn2bin(bn, bin);
+	BN_bn2binpad(bn, bin, len);
 	BN_free(bn);
 
 	/* Encode */
@@ -141,6 +143,12 @@ static void get_one_bn(EVP_PKEY *pkey, const char *ossl_param,
 	OPENSSL_free(bin);
 	json_object_set_new(jwk, name, json_string(b64));
 	jwt_freemem(b64);
+}
+
+static void get_one_bn(EVP_PKEY *pkey, const char *ossl_param,
+		       json_t *jwk, const char *name)
+{
+	get_one_bn_pad(pkey, ossl_param, jwk, name, 0);
 }
 
 /* Retrieves and b64url-encodes a single OSSL octet param and adds it to
@@ -161,16 +169,23 @@ static void get_one_octet(EVP_PKEY *pkey, const char *ossl_param,
 static void process_ec_key(EVP_PKEY *pkey, int priv, json_t *jwk)
 {
 	char alg_type[32], crv[32];
+	size_t bits = 0;
+	int len;
 
 	ec_alg_type(pkey, crv, alg_type);
 
 	json_object_set_new(jwk, "alg", json_string(alg_type));
 	json_object_set_new(jwk, "crv", json_string(crv));
 
-	get_one_bn(pkey, OSSL_PKEY_PARAM_EC_PUB_X, jwk, "x");
-	get_one_bn(pkey, OSSL_PKEY_PARAM_EC_PUB_Y, jwk, "y");
+	/* RFC 7518 6.2: x, y and d are as long as the curve's field, even
+	 * when the integer has leading zero octets */
+	EVP_PKEY_get_size_t_param(pkey, OSSL_PKEY_PARAM_BITS, &bits);
+	len = (bits + 7) / 8;
+
+	get_one_bn_pad(pkey, OSSL_PKEY_PARAM_EC_PUB_X, jwk, "x", len);
+	get_one_bn_pad(pkey, OSSL_PKEY_PARAM_EC_PUB_Y, jwk, "y", len);
 	if (priv)
-		get_one_bn(pkey, OSSL_PKEY_PARAM_PRIV_KEY, jwk, "d");
+		get_one_bn_pad(pkey, OSSL_PKEY_PARAM_PRIV_KEY, jwk, "d", len);
 }
 
 /* For EdDSA keys */
